@@ -435,7 +435,7 @@ class Interp:
                 return self.eval(node.value, {})
             if q != e.id or e.id in module.imports:
                 return External(q)
-        if e.id in ('isinstance', 'len', 'super', 'type', 'tuple', 'list', 'float', 'int', 'sorted', 'str', 'getattr'):
+        if e.id in ('isinstance', 'len', 'super', 'type', 'tuple', 'list', 'float', 'int', 'sorted', 'str', 'getattr', 'sum'):
             return External(e.id)
         if e.id == 'NotImplemented':
             return Opaque('NotImplemented')
@@ -641,6 +641,17 @@ class Interp:
             if len(leaves) > 1:
                 self.promotions.append(site(e))
             return args[0]
+        if name == 'sum' and args and isinstance(args[0], (list, tuple)) and all(isinstance(x, Poly) for x in args[0]) and len(args) <= 2 and not kwargs:
+            total = args[1] if len(args) == 2 else Poly.const(0)
+            if not isinstance(total, Poly):
+                raise Incomplete(site(e), 'sum() with a non-numeric start value')
+            for x in args[0]:
+                total = total + x
+            return total
+        if name in ('numpy.sum', 'jax.numpy.sum') and args and isinstance(args[0], (list, tuple)) and len(args[0]) > 1 and all(isinstance(x, Poly) for x in args[0]) and 'axis' not in kwargs and len(args) == 1:
+            # the list is stacked and *every element* is summed: for arrays of angles the result is one number (the grand total), and
+            # operands of different shapes cannot even be stacked - this is a + b only for scalars
+            raise NonLinear(f'{name}([...]) of {len(args[0])} parameter arrays without an axis collapses them to a single number (the element-wise sum is sum([...]) or a + b)')
         if name == 'len' and isinstance(args[0], (list, tuple, str, dict)):
             return Poly.const(len(args[0]))
         if name in ('typing.get_args', 'typing_extensions.get_args') and isinstance(args[0], tuple):
